@@ -255,6 +255,7 @@ func (c *Ctx) PART(rule string) []report.Obligation {
 					continue
 				}
 				var app *ssa.Call
+				scope := f // where the names are collected
 				seen := map[ssa.Value]bool{}
 				var find func(v ssa.Value, d int)
 				find = func(v ssa.Value, d int) {
@@ -270,7 +271,19 @@ func (c *Ctx) PART(rule string) []report.Obligation {
 					case *ssa.Call:
 						if bi, ok := x.Call.Value.(*ssa.Builtin); ok && bi.Name() == "append" {
 							app = x
+						} else if cal := x.Call.StaticCallee(); cal != nil && c.P.InModule(cal) && cal.Blocks != nil && d > 1 {
+							// the names are collected by a helper: look at what it returns, in its own body
+							for _, r := range returnsOf(cal) {
+								if len(r.Results) > 0 {
+									find(r.Results[0], d-1)
+								}
+							}
+							if app != nil {
+								scope = cal
+							}
 						}
+					case *ssa.Slice:
+						find(x.X, d-1)
 					}
 				}
 				find(cs.Common().Args[1], 5)
@@ -318,7 +331,7 @@ func (c *Ctx) PART(rule string) []report.Obligation {
 						}
 					}
 				}
-				for _, l := range findMapLoops(f) {
+				for _, l := range findMapLoops(scope) {
 					if loadedField(l.rng.X) != "Services" || !l.region[app.Block()] {
 						continue
 					}
